@@ -40,14 +40,14 @@ GNext == %s\\E p \\in Procs : GCall(p) \\/ GOp(p) \\/ GRet(p)
         f.write(txt)
 
 
-def dump_graph(c, name, base, script_tla, consts, invariants=(), step_expr="MCStep(p)", extra_defs="", extra_next="", workers=6, timeout=900, max_states=200000, ret_pred='pc[p] = "ret"'):
+def dump_graph(c, name, base, script_tla, consts, invariants=(), step_expr="MCStep(p)", extra_defs="", extra_next="", workers=6, timeout=900, max_states=200000, ret_pred='pc[p] = "ret"', constraint=None):
     """runs TLC on the generated module with -dump dot,actionlabels; returns (edges, init, tlc result)"""
     d = os.path.join(WORK, "tlc", "%s_graph_%s" % (c.prop, name))
     shutil.rmtree(d, ignore_errors=True)
     os.makedirs(d, exist_ok=True)
     write_mcg(d, base, script_tla, step_expr, extra_defs, extra_next, ret_pred)
     cfg = os.path.join(d, "MCG.cfg")
-    write_cfg(cfg, consts, init="MCInit", next_="GNext", invariants=invariants, deadlock=False, subst={"Script": "ScriptG"})
+    write_cfg(cfg, consts, init="MCInit", next_="GNext", invariants=invariants, deadlock=False, subst={"Script": "ScriptG"}, constraint=constraint)
     dot = os.path.join(d, "g.dot")
     cmd = ["timeout", str(timeout), "tlc", "-workers", str(workers), "-metadir", os.path.join(d, "states"), "-cleanup", "-noGenerateSpecTE",
            "-dump", "dot,actionlabels", dot, "-config", cfg, os.path.join(d, "MCG.tla")]
@@ -188,10 +188,10 @@ def schedules_of(paths):
 
 
 def replay_cover(c, name, base, script_tla, mc_consts, scenario, trace_module, trace_consts, invariants=(), step_expr="MCStep(p)", extra_defs="", extra_next="",
-                 max_paths=None, judge_fn=None, profile="debug", chunk=400, ret_pred='pc[p] = "ret"', strict=True):
+                 max_paths=None, judge_fn=None, profile="debug", chunk=400, ret_pred='pc[p] = "ret"', strict=True, constraint=None):
     """TLC graph -> transition cover -> replay into the real code -> L2 trace validation + L1 verdicts.
        `scenario` is the harness scenario (without `explore`) that runs the same scripts as ScriptG."""
-    edges, init, r = dump_graph(c, name, base, script_tla, mc_consts, invariants=invariants, step_expr=step_expr, extra_defs=extra_defs, extra_next=extra_next, ret_pred=ret_pred)
+    edges, init, r = dump_graph(c, name, base, script_tla, mc_consts, invariants=invariants, step_expr=step_expr, extra_defs=extra_defs, extra_next=extra_next, ret_pred=ret_pred, constraint=constraint)
     if edges is None:
         return None
     paths, n_edges, n_cov = edge_cover(edges, init, max_paths=max_paths)
